@@ -293,7 +293,31 @@ def gstr(s):
 
 
 def gbytes(bs):
-    return "[" + ";".join(str(b) for b in bs) + "]"
+    """Gallina list of bytes; long zero runs are written as `zeros n` so that big RESB images stay parseable."""
+    bs = list(bs)
+    if len(bs) < 256:
+        return "[" + ";".join(str(b) for b in bs) + "]"
+    parts = []
+    cur = []
+    i = 0
+    n = len(bs)
+    while i < n:
+        if bs[i] == 0:
+            j = i
+            while j < n and bs[j] == 0:
+                j += 1
+            if j - i >= 64:
+                if cur:
+                    parts.append("[" + ";".join(str(b) for b in cur) + "]")
+                    cur = []
+                parts.append("(zeros %d)" % (j - i))
+                i = j
+                continue
+        cur.append(bs[i])
+        i += 1
+    if cur:
+        parts.append("[" + ";".join(str(b) for b in cur) + "]")
+    return "(" + " ++ ".join(parts) + ")%list"
 
 
 def glist(xs):
